@@ -132,7 +132,14 @@ def run_property(pid, tier="quick", prog=None, quiet=True):
     if report and report["changed"]:
         ctx.note("functions that differ from the reference tree: %d; analysed in their reference form after their summaries were found equal: %s; "
                  "analysed as they are: %s" % (len(report["changed"]), report["substituted"], [x["function"] for x in report["not_substituted"]]))
-    mod.run(ctx)
+    try:
+        mod.run(ctx)
+    except AnalysisError as e:
+        # a rule that no longer recognises a shape does not pre-empt violations that other rules identified positively before it
+        known_keys = {k["key"] for k in load_known().get("findings", []) if k.get("property") == pid}
+        if not any(f.key not in known_keys for f in ctx.findings):
+            raise
+        ctx.note("the analysis stopped early (%s); the violations identified before that are reported" % e)
     return ctx, mod
 
 
